@@ -11,7 +11,7 @@ from strategies import data as D
 PROPERTY_ID = "C05"
 TECHNIQUE = "Hypothesis-generated valid sparse outputs x index types x column labels against a positional labelling model and a sparse->dense->sparse round-trip; same through the detectors"
 ASSUMPTIONS = [
-    "supported index types: RangeIndex (any start/step), DatetimeIndex (D/h), PeriodIndex (M/D); column labels default or strings (never the reserved word 'labels')",
+    "supported index types: RangeIndex (any start/step), DatetimeIndex (D/h), PeriodIndex (M/D); index optionally named; time indexes with a repeated label (predict/transform only, no update); column labels default, strings (sorted or not, incl. the library's own output words such as 'labels'), non-positional integers, mixed 1/'1', one repeated label",
     "round-trip compares intervals, labels and the *sets* of affected columns (order of columns is not preserved by the dense format)",
 ]
 
@@ -47,7 +47,7 @@ def intervals_strategy(draw, n, kmax=6):
 def static_cases(draw, tier, kind):
     many = draw(st.integers(0, 14)) == 14  # occasionally a long series with very many events
     n = draw(st.integers(150, 320)) if many else draw(st.integers(1 if kind != "change" else 2, 30))
-    case = {"kind": kind, "n": n, "index": draw(D.index_spec())}
+    case = {"kind": kind, "n": n, "index": draw(D.index_spec(D.INDEX_KINDS + D.REPEAT_INDEX_KINDS))}
     if kind == "change":
         if many:
             k = draw(st.integers(70, 140))
@@ -59,7 +59,7 @@ def static_cases(draw, tier, kind):
     if kind == "subset":
         p = draw(st.integers(1, 4))
         case["p"] = p
-        case["columns"] = draw(st.sampled_from(["default", "strings"]))
+        case["columns"] = draw(st.sampled_from(D.COLUMN_KINDS))
         case["icolumns"] = [draw(st.lists(st.integers(0, p - 1), min_size=1, max_size=p, unique=True))
                             for _ in case["intervals"]]
     return case
@@ -68,9 +68,9 @@ def static_cases(draw, tier, kind):
 def column_labels(kind, p):
     import pandas as pd
 
-    if kind == "strings":
-        return pd.Index([f"v{chr(97 + j)}" for j in range(p)])
-    return pd.RangeIndex(p)
+    if kind == "default":
+        return pd.RangeIndex(p)
+    return pd.Index(D.column_labels(kind, p))
 
 
 def assert_same_closedness(y, back, what):
@@ -80,8 +80,8 @@ def assert_same_closedness(y, back, what):
 
 
 def check_index_equal(dense, index, what):
-    if len(dense.index) != len(index) or not dense.index.equals(index):
-        raise Violation(f"{what}: dense output does not carry exactly the given index",
+    if not D.same_index(dense.index, index):
+        raise Violation(f"{what}: dense output does not carry exactly the given index (values and name)",
                         got=str(dense.index[:5]), expected=str(index[:5]))
 
 
@@ -177,11 +177,12 @@ def detector_cases(draw, tier, det):
     nmax = 30 if det != "CircularBinarySegmentation" else 20
     n = draw(st.integers(n_min, max(n_min, nmax)))
     bw = params.get("bandwidth", params.get("min_segment_length", 1))
-    X, _ = draw(D.structured_matrix(n, p, boundary_positions=(0, bw, n - bw, n - 1)))
-    return {"detector": det, "params": params, "X": X, "index": draw(D.index_spec()),
-            "columns": draw(st.sampled_from(["default", "strings"])),
+    case = {"detector": det, "params": params, "index": draw(D.index_spec(D.INDEX_KINDS + D.REPEAT_INDEX_KINDS)),
+            "columns": draw(st.sampled_from(D.COLUMN_KINDS)),
             # predict(X), then update with a long continuation (penalties / thresholds change), then transform(X)
             "update_between": draw(st.sampled_from([False, False, True]))}
+    case["X"], _ = draw(D.structured_matrix(n, p, boundary_positions=(0, bw, n - bw, n - 1)))  # bulk data last (data.py)
+    return case
 
 
 def check_detector(case):
@@ -190,13 +191,14 @@ def check_detector(case):
     det_name = case["detector"]
     X = np.asarray(case["X"], dtype=float)
     n, p = X.shape
-    index = D.build_index(case["index"], n)
-    df = pd.DataFrame(X, index=index, columns=column_labels(case["columns"], p))
+    index = D.build_index(case["index"], n)  # the snapshot the outputs are compared with
+    df = pd.DataFrame(X, index=D.build_index(case["index"], n), columns=column_labels(case["columns"], p))
     det = K.build(K.detector_spec(det_name, case["params"]))
+    repeated = case["index"]["kind"] in D.REPEAT_INDEX_KINDS
     with sut(f"{det_name}.fit/predict/transform"):
         det.fit(df)
         y = det.predict(df)
-        if case.get("update_between"):
+        if case.get("update_between") and not repeated and case["columns"] != "duplicated":
             # the same object keeps being used: transform(X) must label according to predict(X) *now*
             reps = 1 if det_name == "CircularBinarySegmentation" else 6
             more = pd.DataFrame(np.vstack([X[::-1] * 0.5, X] * reps), columns=df.columns,
@@ -207,6 +209,9 @@ def check_detector(case):
         else:
             dense = det.transform(df)
     check_index_equal(dense, index, f"{det_name}.transform")
+    if not D.same_index(df.index, index) or list(df.columns) != list(column_labels(case["columns"], p)):
+        raise Violation(f"{det_name}: the caller's index or column labels were modified", got=str(df.index[:4]),
+                        got_name=str(df.index.names), expected=str(index[:4]), expected_name=str(index.names))
     kind, events = K.sparse_events(y)
     if kind == "changepoints":
         want = ref.dense_segment_labels(events, n).reshape(-1, 1)
@@ -239,10 +244,12 @@ def check_detector(case):
         b = [sorted(int(c) for c in np.asarray(x).reshape(-1)) for x in back["icolumns"].tolist()]
         if a != b:
             raise Violation("MVCAPA: affected columns do not survive the round trip", predict=a, round_trip=b)
-    classes = [f"index={case['index']['kind']}"]
+    classes = [f"index={case['index']['kind']}", f"columns={case['columns']}"]
+    if case["index"].get("name"):
+        classes.append("named_index")
     if events:
         classes.append("has_event")
-    if case.get("update_between"):
+    if case.get("update_between") and not repeated and case["columns"] != "duplicated":
         classes.append("update_between_predict_and_transform")
     return {"nontrivial": bool(events) and case["index"]["kind"] != "range0", "classes": classes}
 
